@@ -26,6 +26,7 @@ PROGRAMS = {
     "clr_halt": "ccfc00de1306",                    # MV (FC),0 ; HALT ; JR start   (a polled, masked request is acknowledged, then the CPU halts)
     "lcd": "083fa800a00008b9a800a000130e",           # MV A,3F ; MV [0A000],A ; MV A,B9 ; MV [0A000],A ; JR start   (display on, page set, VRAM untouched)
     "wait_scaled": "0b0300ef1306",                  # the WAIT loop on a machine built with timer_scale=0.25 (Python constructor switch; C16 only)
+    "isr_hi_halt": "ccfc10de0000001309",              # MV (FC),10 ; HALT ; NOP x3 ; JR start   (a status bit other than MTI/STI/KEY/ONK is pending)
     "zflag": "08017c001306",                         # MV A,1 ; DEC A ; JR start   (Z is set whenever an interrupt arrives)
     "romw": "085aa8000c0ca80010007c00130c",       # MV A,5A ; MV [C0C00],A ; MV [01000],A ; ... stores into the ROM window and the read-only low range
     "rst": "000000ff1306",                           # NOP NOP NOP RESET (-> reset vector -> start)   (timers must keep their boundaries)
@@ -37,6 +38,7 @@ HANDLERS = {
     "clr": "00ccfc0001",
     "nest": "00ccfb8f0001",
     "long": "00000001",
+    "bp": "0032ccec4001",          # NOP ; MV (EC),40 (direct) ; RETI   -- BP is non-zero when the return restores the mask
 }
 IMRS = [0x00, 0x80, 0x81, 0x82, 0x84, 0x88, 0x8F, 0x0F]
 TIMERS = [(False, 0, 0), (True, 1, 0), (True, 2, 0), (True, 3, 0), (True, 4, 0), (True, 0, 2), (True, 0, 3), (True, 2, 3)]
@@ -179,7 +181,7 @@ def monitor(impl, cfg, cname, hist, pre, ev, post, mon, vb: VB, bnds) -> Tuple:
             if pre["regs"][n] != post["regs"][n]:
                 vb.add(sig("event-changes-cpu-registers"), f"{impl} {cname}: {ev} changed {n} {pre['regs'][n]:#x}->{post['regs'][n]:#x}", wit)
     # ---------------- pending requests are not lost -------------------------------------------------------------
-    writes_isr = cname.split("|")[0] in ("isr_clear", "clr_halt") or "clr" in cname.split("|")[1]
+    writes_isr = cname.split("|")[0] in ("isr_clear", "clr_halt", "isr_hi_halt") or "clr" in cname.split("|")[1]
     if pre["power"] == "running" and not off_mode:
         lost = isr_pre & ~isr_post & 0x0F
         if ev[0] == "release_on":
@@ -207,11 +209,11 @@ def monitor(impl, cfg, cname, hist, pre, ev, post, mon, vb: VB, bnds) -> Tuple:
             for n in ("PC", "S", "BA", "I", "X", "Y", "U"):
                 if pre["regs"][n] != post["regs"][n]:
                     vb.add(sig("halted-cpu-executes"), f"{impl} {cname}: halted step changed {n}", wit)
-            if isr_pre & 0x0F and not off_mode:
+            if isr_pre & 0x7F and not off_mode:
                 vb.add(sig("halt-not-woken-by-pending-status"), f"{impl} {cname}: halted with ISR={isr_pre:#04x} and still halted after a "
                        f"step, after {hist}", wit)
         else:
-            if not (isr_post & 0x0F) and not (isr_pre & 0x0F):
+            if not (isr_post & 0x7F) and not (isr_pre & 0x7F):
                 vb.add(sig("halt-wakes-without-status"), f"{impl} {cname}: CPU left HALT/OFF with ISR={isr_post:#04x}, after {hist}", wit)
         if off_mode and (isr_post & ~isr_pre & 0x03) and not (isr_pre & 0x0C):
             vb.add(sig("timers-run-while-off"), f"{impl} {cname}: powered off, yet a timer status bit was set "
@@ -349,6 +351,7 @@ def combos_for(impl, thorough, seed):
     if impl == "python" and not thorough:
         # two timers with only one of them unmasked: the enabled request must be taken whichever source fired last
         out += [(p, "reti", i, TIMERS[7]) for p in ("nop", "zflag") for i in (0x81, 0x82)]
+        out += [("nop", "bp", 0x8F, TIMERS[2]), ("zflag", "bp", 0x81, TIMERS[2])]      # the handler leaves BP non-zero at RETI time
     if seed:
         k = seed % len(out)
         out = out[k:] + out[:k]
